@@ -7,6 +7,8 @@ Everything here still decides from the current source only (no execution of repo
   T4 option plumbing: a keyword option of a public function that is never read is a dropped option (INFO)
   T5 the property's own self-test variants are re-run on scratch copies; the catch rate is recorded in the evidence
      (checker validation - never a VIOLATION of the property)
+  T6 the check is re-run on 66 behaviour-preserving AST transformations of the core files (tools/neutral.py): a false alarm makes the
+     run UNDECIDED (exit 2), never a VIOLATION
 """
 import ast
 import itertools
@@ -184,6 +186,20 @@ def selftest_rate(ctx):
     ctx.selftest = last[0] if last else None
 
 
+def neutral_rate(ctx):
+    """T6: the property's check is re-run on 66 behaviour-preserving transformations of the core files (tools/neutral.py): all must stay clean.
+    Checker validation only - a false alarm here is reported as UNDECIDED (the check is not to be trusted), never as a VIOLATION of the property."""
+    if ctx.P.repo != '/repo':
+        return
+    r = subprocess.run(['/venv/bin/python', os.path.join(VERIF, 'tools', 'neutral.py'), ctx.prop], capture_output=True, text=True, cwd=VERIF)
+    last = [l for l in r.stdout.splitlines() if l.startswith('neutral:')]
+    ctx.info('T6 checker validation: %s' % (last[0] if last else 'neutral sweep did not run'))
+    ctx.selftest = ((getattr(ctx, 'selftest', None) or '') + ' | ' + (last[0] if last else 'neutral sweep did not run')).strip(' |')
+    for l in r.stdout.splitlines():
+        if l.startswith('FALSE-ALARM'):
+            ctx.undecide('T6', 'the check alarms on a behaviour-preserving transformation: %s' % l)
+
+
 SWEEPS = {
     'C01': [sweep_index_kinds, sweep_numpy, sweep_dropped_options],
     'C02': [sweep_numpy, sweep_dropped_options],
@@ -211,3 +227,4 @@ def extra(ctx):
     for fn in SWEEPS.get(ctx.prop, []):
         fn(ctx)
     selftest_rate(ctx)
+    neutral_rate(ctx)
